@@ -61,17 +61,18 @@ def resolve_import(repo: Repo, mod: Module, name: str) -> tuple[Module, str] | N
                         target = ".".join(base + ([stmt.module] if stmt.module else []))
                     else:
                         target = stmt.module or ""
-                    # `from . import x` may name a submodule
-                    sub = f"{target}.{a.name}"
-                    if sub in repo.modules and not _defines(repo.modules.get(target), a.name):
-                        return repo.modules[sub], ""
                     if target in repo.modules:
                         tm = repo.modules[target]
                         if _defines(tm, a.name):
                             return tm, a.name
-                        nxt = resolve_import(repo, tm, a.name)
-                        if nxt:
-                            return nxt
+                        if tm is not mod:
+                            nxt = resolve_import(repo, tm, a.name)
+                            if nxt:
+                                return nxt
+                    # `from . import x` may name a submodule
+                    sub = f"{target}.{a.name}"
+                    if sub in repo.modules:
+                        return repo.modules[sub], ""
                     return None
     return None
 
